@@ -17,6 +17,7 @@ import (
 	"net"
 	"os"
 	"path/filepath"
+	"runtime/debug"
 	"sort"
 	"strings"
 	"sync"
@@ -460,9 +461,11 @@ func (r *connRun) serve(feed func(w io.Writer) error, hookFn func(string)) {
 	done := make(chan error, 1)
 	t0 := time.Now()
 	go func() {
+		// closing the read side unblocks the feeder when handleConn gives up early
+		defer b.Close()
 		defer func() {
 			if p := recover(); p != nil {
-				done <- fmt.Errorf("PANIC in handleConn: %v", p)
+				done <- fmt.Errorf("PANIC in handleConn: %v\n%s", p, vTrimStack(debug.Stack()))
 			}
 		}()
 		done <- handleConn(b, r.Conf)
